@@ -361,6 +361,21 @@ def _direct_gate_edges(F, G, B):
     """All edges on which `count == 1` is known for a handle derived from some argument, with the ordering of the load:
     [(bb, target, roots, ordering)] - covers `if h.is_unique()` and the inlined `if load(h) == 1`."""
     out = []
+    if not getattr(G, "_fwd_done", False):
+        # a handle kind's own uniqueness test written through its lending helper - `fn is_unique(&self) -> bool {
+        # self.with_arc(|a| a.is_unique()) }` - is a gate too: it answers for the very handle passed first
+        G._fwd_done = True
+        for fb in F.body_list:
+            if fb["kind"] not in ("Fn", "AssocFn") or fb["key"] in G.gates or "output" not in fb or F.ts(fb["output"]) != "bool":
+                continue
+            FB = cfg.Body(fb)
+            o = FB.origin_local(0)
+            if o.get("kind") != "call" or not o["term"]["args"]:
+                continue
+            fg0 = _forwarded_gate(F, G, o["term"])
+            pl0 = operand_place(o["term"]["args"][0])
+            if fg0 is not None and pl0 is not None and 1 in root_args(FB, pl0["l"]):
+                G.gates[fb["key"]] = (fg0, None)
     for bi, bl in enumerate(B.blocks):
         tt = bl["term"]
         if tt["k"] != "switch":
